@@ -1,19 +1,25 @@
 // C02 / C03 / C04 / C12 / C20 -- the fixsliced SOFTWARE backends of the aes crate (cfg aes_force_soft: crate::Aes* are
 // the types of src/soft.rs), 64-bit and 32-bit file, normal and aes_compact form: one file for the four variants.
 //
-// Composition argument for C02 (per variant and key size; L = leaf lemmas in fix64_inner.rs / fix32_inner.rs):
+// Composition argument for C02 (per variant and key size; L = leaf lemmas in fix64_inner.rs / fix32_inner.rs, all D-shape
+// over the full input width of the leaf):
 //   (KS)  for every key:  the private state of Aes*::new(key) (and Aes*Enc::new, Aes*Dec::new) == m_keys(KeyExpansion(key))
-//         -- real bitslice/memshift32/xor_columns/add_round_constant_bit/sub_bytes_nots/inv_shift_rows_k adjustments/NOT
-//         compensation, sub_bytes := bitslice o (uf ^ 0x63 per byte) o inv_bitslice, SubWord of the oracle := the same uf.
+//         -- real bitslice / memshift32 / xor_columns / add_round_constant_bit / sub_bytes_nots / inv_shift_rows_k adjustments /
+//         NOT compensation; sub_bytes := bitslice o (f_j ^ 0x63 per byte) o inv_bitslice on the replicated lanes (replication is
+//         a proof obligation), SubWord of the oracle := the same f_j  (f_j: uninterpreted byte function of the j-th S-box layer).
 //   (ENC) for every round-key sequence rk[0..=nr] and block:  encrypt_block on the state m_keys(rk) == FIPS-197 Cipher(rk, block)
 //         -- real padding of the batch, bitslice, add_round_key, shift_rows_2, round sequencing / loop exits / key offsets,
-//         inv_bitslice; sub_bytes := uf ^ 0x63 on the bytes of lane 0; mix_columns_k := its specification
-//         ShiftRows^-k o MixColumns o ShiftRows^k on lane 0 (leaf lemmas fx_mix_columns + fx_mc_model); in both stubs the
-//         padding lanes are havocked at every call (so the result is also shown not to depend on them); the oracle's S-box
-//         := the same uf.
-//   (DEC) likewise decrypt_block == FIPS-197 InvCipher(rk, block) (straight form, 5.3), inv_sub_bytes := uf'(. ^ 0x63),
-//         inv_mix_columns_k := ShiftRows^-k o InvMixColumns o ShiftRows^k (fx_inv_mix_columns + fx_imc_model).
-//   L:    sub_bytes / inv_sub_bytes are exactly these stubs with uf = S-box, uf' = inverse S-box (all states, all lanes).
+//         inv_bitslice; sub_bytes := f_r ^ 0x63 on the bytes of lane 0 (r = S-box layer = round); mix_columns_k := the byte form
+//         mc_ks(., k) on lane 0 (leaf lemma L1 fx_mix_columns); in both stubs the padding lanes are havocked at every call (so
+//         the result is also shown not to depend on them).  Oracle: refmodels::aes Cipher with S-box := the same f_r and
+//         MixColumns := mc_ks(., 0), which L2 (fx_mc_model) proves equal to the FIPS-197 matrix on all 2^128 states.
+//   (DEC) likewise decrypt_block == FIPS-197 InvCipher(rk, block) (straight form, 5.3): inv_sub_bytes := g_r(. ^ 0x63),
+//         inv_mix_columns_k := imc_ks(., k) (fx_inv_mix_columns); oracle InvMixColumns := imc_ks(., 0) (fx_imc_model).
+//   L:    sub_bytes / inv_sub_bytes are exactly these stubs with f = S-box, g = inverse S-box (fx_sub_bytes / fx_inv_sub_bytes,
+//         all states, all lanes); bitslice / inv_bitslice == the transcriptions used inside the stubs == the bit placement model,
+//         and are mutually inverse (fx_bitslice / fx_inv_bitslice).
+//   One uninterpreted function PER S-BOX LAYER (shared by implementation and oracle in that layer) is a weaker hypothesis than one
+//   shared function, hence sound; it keeps the Ackermann logs at 32 entries.
 //   m_keys is the explicit fixslice key format (phase r mod 4 resp. r mod 2, NOT mask, replication over the lanes).
 //   => instantiate (ENC)/(DEC) at rk = KeyExpansion(key): Aes*::new(key).encrypt_block(b) == Cipher(KeyExpansion(key), b) and
 //      decrypt_block == InvCipher, all keys, all blocks.
